@@ -927,28 +927,36 @@ where
     T: Hash + Eq,
     str: Equivalent<T>,
 {
-    let (from, replaced) = set.replace_full(rule);
+    // Validate the positions before modifying the set, so that an error leaves it unchanged.
+    let after_idx = after
+        .map(|rule_id| set.get_index_of(rule_id).ok_or(InsertPushRuleError::UnknownRuleId))
+        .transpose()?;
+    let before_idx = before
+        .map(|rule_id| set.get_index_of(rule_id).ok_or(InsertPushRuleError::UnknownRuleId))
+        .transpose()?;
 
-    let mut to = default_position;
-
-    if let Some(rule_id) = after {
-        let idx = set.get_index_of(rule_id).ok_or(InsertPushRuleError::UnknownRuleId)?;
-        to = idx + 1;
-    }
-    if let Some(rule_id) = before {
-        let idx = set.get_index_of(rule_id).ok_or(InsertPushRuleError::UnknownRuleId)?;
-
-        if idx < to {
+    if let (Some(after_idx), Some(before_idx)) = (after_idx, before_idx) {
+        if before_idx <= after_idx {
             return Err(InsertPushRuleError::BeforeHigherThanAfter);
         }
-
-        to = idx;
     }
 
-    // Only move the item if it's new or if it was positioned.
-    if replaced.is_none() || after.is_some() || before.is_some() {
-        set.move_index(from, to);
-    }
+    let (from, replaced) = set.replace_full(rule);
+
+    let to = match (before_idx, after_idx) {
+        // Only move the item if it's new or if it was positioned.
+        (None, None) if replaced.is_some() => return Ok(()),
+        (None, None) => default_position,
+        (Some(idx), _) => idx,
+        (None, Some(idx)) => idx + 1,
+    };
+
+    // Moving the rule towards the end of the set shifts the rules in between, including the
+    // reference rule, by one position.
+    let to = if (before_idx.is_some() || after_idx.is_some()) && from < to { to - 1 } else { to };
+
+    // The default position can be past the end of the set.
+    set.move_index(from, to.min(set.len() - 1));
 
     Ok(())
 }
